@@ -43,7 +43,10 @@ func Open(f *os.File) (*DMG, error) {
 	return d, nil
 }
 
-const udifSignature = 0x6B6F6C79 // koly
+const (
+	udifSignature  = 0x6B6F6C79 // koly
+	udifHeaderSize = 512
+)
 
 type udifFlags uint32
 
